@@ -26,7 +26,8 @@ LEAN_MODULES = ["NiftyVerif.Props.C21", "NiftyVerif.Core.Proto", "NiftyVerif.Mod
 DRIVER = "Driver/C21.lean"
 OBLIGATIONS = ["NiftyVerif.C21." + t for t in (
     "context_restores", "unbalanced_body_raises", "ctx_only_balanced", "nested_contexts_restore", "draws_out",
-    "draws_depend_only_on_seed", "spawn_children_distinct", "vi_key_schedule")]
+    "draws_depend_only_on_seed", "ctx_out", "draws_depend_only_on_seed_full", "draws_same_from_any_two_states",
+    "spawn_children_distinct", "vi_key_schedule")]
 RULE = ("program = nested command list of <= 40 ops over {draw(kind,shape), spawn(n), ctx(seed|spawned child){body}, raise, "
         "raw push, raw pop}; 70% use contexts only, 30% also raw push/pop; non-trivial = contains a context and a draw; "
         "distinct by program")
